@@ -90,6 +90,10 @@ def _materialise(case):
     if form.startswith("2d:"):
         r, c = map(int, form[3:].split("x"))
         return np.array(w).reshape((r, c), order="F")
+    if form.startswith("2dobj:"):
+        # the same 2-D layout held in an object-dtype array (pandas .values, arrays filled in a loop)
+        r, c = map(int, form[6:].split("x"))
+        return np.array(w).reshape((r, c), order="F").astype(object)
     return list(w)
 
 
@@ -123,11 +127,24 @@ def run_case(ctx, case):
     ctx.check("returns_list", isinstance(out, list), det)
     if not ctx.check("length_is_n", len(out) == n, det):
         return
-    ok = all(out[i] == ref[i % L] for i in range(n))
+    ok = all(isinstance(out[i], str) and str(out[i]) == str(ref[i % L]) for i in range(n))  # elements are well IDs (strings)
     ctx.check("cycles_in_column_major_order", ok, det)
     if n == 0:
         ctx.count("n_zero")
         ctx.check("n_zero_gives_empty", out == [], det)
+    if isinstance(out, list) and (n + L) % 5 == 0:
+        # the returned list is the caller's (e.g. `src = get_trough_wells(11, a); src += get_trough_wells(5, b)`):
+        # asking again for the same (n, wells) must give the full answer again
+        out.extend(["X99"] * 3)
+        if out:
+            out.pop(0)
+        try:
+            again = robotools.get_trough_wells(n, _materialise(case))
+        except Exception as e:
+            again = e
+        ctx.count("asked_again_after_editing_the_result")
+        ctx.check("cycles_in_column_major_order", isinstance(again, list) and len(again) == n and all(isinstance(again[i], str) and str(again[i]) == str(ref[i % L]) for i in range(n)),
+                  lambda: {"n": case["n"], "wells": enc(wells), "second_answer": enc(again) if not isinstance(again, Exception) else repr(again)})
     if n > L:
         ctx.count("wrapped")
     if n % L == 0 and n > 0:
@@ -140,6 +157,7 @@ def extra(ctx):
     for L in range(1 + ctx.shard, GRID_L + 1, ctx.nshards):
         ids = _ids(L)
         forms = ["list", "array"] + [f"2d:{r}x{L // r}" for r in range(1, L + 1) if L % r == 0]
+        forms += [f"2dobj:{r}x{L // r}" for r in range(2, L) if L % r == 0][:2]
         for form in forms:
             for n in range(0, GRID_N + 1):
                 case = {"n": n, "wells": ids, "form": form}
@@ -155,7 +173,8 @@ def extra(ctx):
 def gates(stats, tier):
     c = stats["counters"]
     r = []
-    forms_per_len = sum(2 + sum(1 for d in range(1, L + 1) if L % d == 0) for L in range(1, GRID_L + 1))
+    forms_per_len = sum(2 + sum(1 for d in range(1, L + 1) if L % d == 0) + len([r for r in range(2, L) if L % r == 0][:2])
+                        for L in range(1, GRID_L + 1))
     want = forms_per_len * (GRID_N + 1)
     if c.get("exhaustive_grid_calls", 0) != want:
         r.append(f"exhaustive grid incomplete: {c.get('exhaustive_grid_calls', 0)} of {want} calls")
